@@ -22,7 +22,7 @@ function loadKnown () {
 
 function classify (prop, v, known) {
   for (const e of known) {
-    if (e.property !== prop || e.status !== 'open' || e.rule !== v.rule) continue
+    if (e.property !== prop || e.status !== 'open' || !new RegExp('^(?:' + e.rule + ')$').test(v.rule)) continue
     if (new RegExp(e.sig).test(v.sig)) return e
   }
   return null
